@@ -23,6 +23,7 @@ type Unit struct {
 	Errors   []string
 	Pos      string
 	Passes   int
+	Inputs   *inputDesc
 }
 
 func (p *Program) findFunc(ct *Contract) *ssa.Function {
@@ -70,6 +71,12 @@ func (p *Program) VerifyContract(ct *Contract, tier string) *Unit {
 		}
 	}
 	u.Obls = c.obls
+	u.Inputs = c.inputs
+	if c.inputs != nil {
+		for _, o := range u.Obls {
+			o.Witness = c.inputs.Witness
+		}
+	}
 	u.Errors = append(u.Errors, c.specErrors...)
 	return u
 }
@@ -91,6 +98,7 @@ func (p *Program) genFunc(c *Ctx, fn *ssa.Function, ct *Contract) {
 		fr.params = append(fr.params, v)
 	}
 	entry := st.clone()
+	c.inputs = c.describeInputs(fn, fr.params, entry)
 	sig := fn.Signature
 	env := c.contractEnv(ct, sig, nil, fr.params, fn.Pkg.Pkg, entry, nil)
 	var reqs []*Term
